@@ -72,6 +72,7 @@ type Frame struct {
 	params    []Val
 	rangeRet  *rangeRet // frame is a sync.Map.Range callback activation
 	specAddrs map[string]*Ptr
+	syncRet   *[]Val
 	cellVars  map[string]bool
 	// contract scope (top-level frame only)
 	contract *Contract
@@ -119,6 +120,7 @@ type State struct {
 	sawTokens   bool
 	inDetached  bool
 	loopHavoc   bool
+	lastSortPerm, lastSortInv string
 	lockCount   map[string]int    // acquisitions per mutex identity on this path
 	smOps       int               // sync.Map primitives executed on this path
 	lockSnap    *Snapshot         // state right after the most recent lock acquisition
@@ -182,6 +184,7 @@ func (st *State) clone() *State {
 		n.lockCount[k] = v
 	}
 	n.smOps = st.smOps
+	n.lastSortPerm, n.lastSortInv = st.lastSortPerm, st.lastSortInv
 	n.written = map[string]bool{}
 	for k, v := range st.written {
 		n.written[k] = v
